@@ -1,0 +1,149 @@
+//! Verification hooks, compiled only with the `verif` feature.
+//!
+//! - a process-wide mock for `ServerStartInstant::seconds_elapsed`
+//! - named fault points, armed through the `AQUATIC_VERIF_FAULTS` environment
+//!   variable: a comma-separated list of `name:action[:after_hits]`, where
+//!   action is one of `panic`, `abort`, `return_ok`, `return_err`, `delay<ms>`.
+//!   A fault fires on hit number `after_hits + 1` of its name (every hit for
+//!   `delay`), prints a line `VERIF-FAULT <name> <action> t_ms=<monotonic>` to
+//!   stderr and then acts.
+
+use std::collections::HashMap;
+use std::sync::atomic::{AtomicI64, Ordering};
+use std::sync::{Mutex, OnceLock};
+use std::time::Instant;
+
+static MOCK_SECONDS: AtomicI64 = AtomicI64::new(-1);
+
+/// Make `ServerStartInstant::seconds_elapsed` return `Some(seconds)` in this
+/// process. `None` restores the real clock.
+pub fn set_mock_seconds_elapsed(seconds: Option<u32>) {
+    MOCK_SECONDS.store(seconds.map(|s| s as i64).unwrap_or(-1), Ordering::SeqCst);
+}
+
+pub fn mock_seconds_elapsed() -> Option<u32> {
+    let v = MOCK_SECONDS.load(Ordering::SeqCst);
+
+    (v >= 0).then_some(v as u32)
+}
+
+#[derive(Clone, Copy, Debug, PartialEq, Eq)]
+pub enum FaultAction {
+    None,
+    Panic,
+    Abort,
+    ReturnOk,
+    ReturnErr,
+}
+
+struct Fault {
+    action: String,
+    after_hits: u64,
+    hits: u64,
+}
+
+fn process_start() -> Instant {
+    static START: OnceLock<Instant> = OnceLock::new();
+
+    *START.get_or_init(Instant::now)
+}
+
+/// Milliseconds on the process-local monotonic clock used in fault lines
+pub fn monotonic_ms() -> u128 {
+    process_start().elapsed().as_millis()
+}
+
+fn faults() -> &'static Mutex<HashMap<String, Fault>> {
+    static FAULTS: OnceLock<Mutex<HashMap<String, Fault>>> = OnceLock::new();
+
+    FAULTS.get_or_init(|| {
+        let _ = process_start();
+        let mut map = HashMap::new();
+
+        if let Ok(spec) = std::env::var("AQUATIC_VERIF_FAULTS") {
+            for item in spec.split(',').filter(|s| !s.is_empty()) {
+                let parts: Vec<&str> = item.split(':').collect();
+
+                if parts.len() >= 2 {
+                    map.insert(
+                        parts[0].to_string(),
+                        Fault {
+                            action: parts[1].to_string(),
+                            after_hits: parts.get(2).and_then(|s| s.parse().ok()).unwrap_or(0),
+                            hits: 0,
+                        },
+                    );
+                }
+            }
+        }
+
+        Mutex::new(map)
+    })
+}
+
+/// Report a hit of the fault point `name`. `delay` actions and `abort` are
+/// carried out here; the others are returned to the caller (see the
+/// `verif_fault!` macro).
+pub fn fault_point(name: &str) -> FaultAction {
+    let action = {
+        let mut faults = faults().lock().unwrap_or_else(|e| e.into_inner());
+
+        match faults.get_mut(name) {
+            None => return FaultAction::None,
+            Some(fault) => {
+                fault.hits += 1;
+
+                if fault.action.starts_with("delay") {
+                    fault.action.clone()
+                } else if fault.hits == fault.after_hits + 1 {
+                    fault.action.clone()
+                } else {
+                    return FaultAction::None;
+                }
+            }
+        }
+    };
+
+    if let Some(ms) = action.strip_prefix("delay") {
+        std::thread::sleep(std::time::Duration::from_millis(ms.parse().unwrap_or(0)));
+
+        return FaultAction::None;
+    }
+
+    eprintln!("VERIF-FAULT {} {} t_ms={}", name, action, monotonic_ms());
+
+    match action.as_str() {
+        "panic" => FaultAction::Panic,
+        "abort" => std::process::abort(),
+        "return_ok" => FaultAction::ReturnOk,
+        "return_err" => FaultAction::ReturnErr,
+        _ => FaultAction::None,
+    }
+}
+
+/// Fault point for functions returning `anyhow::Result<()>`
+#[macro_export]
+macro_rules! verif_fault {
+    ($name:expr) => {
+        match $crate::verif::fault_point($name) {
+            $crate::verif::FaultAction::None => {}
+            $crate::verif::FaultAction::Panic => panic!("verif fault point {}", $name),
+            $crate::verif::FaultAction::Abort => ::std::process::abort(),
+            $crate::verif::FaultAction::ReturnOk => return Ok(()),
+            $crate::verif::FaultAction::ReturnErr => {
+                return Err(::anyhow::anyhow!("verif fault point {}", $name))
+            }
+        }
+    };
+}
+
+/// Fault point for other contexts: only panic / abort / delay take effect
+#[macro_export]
+macro_rules! verif_fault_basic {
+    ($name:expr) => {
+        match $crate::verif::fault_point($name) {
+            $crate::verif::FaultAction::Panic => panic!("verif fault point {}", $name),
+            _ => {}
+        }
+    };
+}
